@@ -114,6 +114,8 @@ def case_random(ctx, rng, wd):
     if shear:
         cellkind = "tri/sheared"
     ppp = np.ones(2, dtype=int) if nlkind == "voronoi" else gc.random_mask(rng, 2, allow_open=False)
+    if nlkind != "voronoi":
+        gc.unwrap_in_place(rng, snaps.snapshots, Hs, ppp)       # unwrapped coordinates: the same periodic configuration, the same bonds
     ra = min(geom.agreement_radius(Hf, ppp) for Hf in Hs)
     tables = [geom.pair_table(s.positions, Hf, ppp)[1] for s, Hf in zip(snaps.snapshots, Hs)]
     if min(float(np.min(t + np.eye(N) * 9)) for t in tables) < 1e-3:
